@@ -39,6 +39,8 @@ def levels(tier):
              "anchored": [None], "late_rule": [(1, 4, "path1"), (2, 1, "subdomain")]},
             {"name": "special-hosts", "pools": ["s"], "n": 2, "alphabet": ["page"], "defaults": ["domain", "path1"],
              "anchored": [None, (0, 2, "path1"), (1, 2, "path2"), (2, 1, "subdomain")]},
+            {"name": "rmrule", "pools": ["a"], "n": 2, "alphabet": ["page", "rmrule"], "defaults": ["domain"], "anchored": [(1, 3, "path1")],
+             "tpool": [0, 1]},
             {"name": "reopen", "pools": ["a"], "n": 2, "prelude": [["page", 1, False]], "alphabet": ["page", "delwe", "reopen"], "defaults": ["domain"],
              "anchored": [(1, 3, "path1")], "backend": "file"},
         ]
@@ -58,6 +60,8 @@ def levels(tier):
         {"name": "reopen-n3", "pools": ["a"], "n": 3, "prelude": [["page", 1, False]], "alphabet": ["page", "delwe", "reopen"], "defaults": ["domain"],
          "anchored": [(1, 3, "path1")], "backend": "file"},
         {"name": "pages-n3", "pools": ["a"], "n": 3, "alphabet": ["page"], "defaults": ["domain"], "anchored": [None, (1, 4, "path1")]},
+        {"name": "rmrule-n3", "pools": ["a"], "n": 3, "alphabet": ["page", "rmrule", "rule"], "rule_patterns": ["path1"], "defaults": ["domain"],
+         "anchored": [(1, 3, "path1")]},
     ]
 
 
@@ -119,7 +123,10 @@ def snapshot(E, t):
 def harness(E):
     P = E.params
     pname = P["pools"][E.choose("pool", len(P["pools"]))]
-    pool = typed_pool(E, POOLS[pname], L=P.get("L", 1))
+    specs = POOLS[pname]
+    if P.get("tpool"):
+        specs = [specs[i] for i in P["tpool"]]
+    pool = typed_pool(E, specs, L=P.get("L", 1))
     default = P["defaults"][E.choose("default", len(P["defaults"]))]
     anch = P["anchored"][E.choose("anchored", len(P["anchored"]))]
     ref = Ref()
@@ -160,7 +167,11 @@ def harness(E):
         if kind == "we":
             E.reach("hand-made-webentity")
             continue
-        if kind in ("delwe", "reopen"):
+        if kind in ("delwe", "reopen", "rmrule"):
+            continue
+        if kind == "rule":
+            _T[0] = h.t
+            check_created(E, info)
             continue
         _T[0] = h.t
         check_created(E, info)
